@@ -294,12 +294,17 @@ int main(int argc, char** argv) {
         return 0;
     }
 
-    if (!strcmp(kind, "large")) {
+    if (!strcmp(kind, "large") || !strcmp(kind, "larger")) {
         /* sizes as operands: parameter sets with l = 5..257 slots FRESH FROM SETUP (projective points with z != 1, which unmarshalled objects
          * never have) and keys with many free slots are marshalled, parsed through the Go protocol and marshalled again */
-        static const int Ls[] = {5, 8, 9, 15, 16, 17, 31, 32, 33, 63, 64, 65, 100, 255, 256, 257};
+        /* "large": EVERY l = 3..40 and 63..65 (20 slots with signatures is the deployed configuration); "larger" (thorough tier): every l = 41..130,
+         * 255..257 and one key whose slot area exceeds 64 KiB */
+        static int Ls[200];
+        size_t nLs = 0;
+        if (!strcmp(kind, "large")) { for (int l = 3; l <= 40; l++) Ls[nLs++] = l; Ls[nLs++] = 63; Ls[nLs++] = 64; Ls[nLs++] = 65; }
+        else { for (int l = 41; l <= 130; l++) if (l < 63 || l > 65) Ls[nLs++] = l; Ls[nLs++] = 255; Ls[nLs++] = 256; Ls[nLs++] = 257; Ls[nLs++] = 700; }
         unsigned long long nlarge = 0;
-        for (size_t li = 0; li < sizeof(Ls) / sizeof(Ls[0]); li++) {
+        for (size_t li = 0; li < nLs; li++) {
             if (li < start || li > end) continue;
             int l = Ls[li];
             for (int s = 0; s < 2; s++) {
@@ -323,8 +328,17 @@ int main(int argc, char** argv) {
                 uint8_t* kout = (uint8_t*) malloc(kl);
                 embedded_pairing_wkdibe_secretkey_marshal(kout, &k, comp);
                 parse_secretkey(kout, kl, comp, checked);
+                free(kout); free(k.b);
+                /* a key with all l slots free */
+                al.length = 0;
+                k.b = (embedded_pairing_wkdibe_freeslot_t*) malloc((size_t) l * sizeof(embedded_pairing_wkdibe_freeslot_t));
+                embedded_pairing_wkdibe_keygen(&k, &p, &msk, &al, det_random);
+                kl = embedded_pairing_wkdibe_secretkey_get_marshalled_length(&k, comp);
+                kout = (uint8_t*) malloc(kl);
+                embedded_pairing_wkdibe_secretkey_marshal(kout, &k, comp);
+                parse_secretkey(kout, kl, comp, checked);
                 free(kout); free(k.b); free(out); free(p.h);
-                nlarge += 2;
+                nlarge += 3;
             }
         }
         printf("STAT {\"kind\":\"large\",\"compressed\":%d,\"checked\":%d,\"fill\":\"alphabet\",\"calls\":%llu,\"lengths_accepted\":0,\"objects_accepted\":%llu,\"remarshalled\":%llu,\"last_len\":16}\n",
